@@ -26,6 +26,8 @@ var Sites []Site
 
 const MaxG = 16
 
+const maxTrace = 1 << 17
+
 // Switch is one scheduling decision in explicit form.
 type Switch struct {
 	Step uint64 `json:"s"` // global yield index at which the decision applies
@@ -151,6 +153,9 @@ func Begin(n int, p Policy) {
 	pol = p
 	polIdx = 0
 	step = 0
+	if cap(trace) < maxTrace {
+		trace = make([]TraceEntry, 0, maxTrace) // never grown while callers run: append's growth path carries race-detector hooks
+	}
 	trace = trace[:0]
 	blockedStreak = 0
 	overrun = false
@@ -227,9 +232,22 @@ func Begin(n int, p Policy) {
 		first = 0
 	}
 	cur = first
-	trace = append(trace, TraceEntry{Step: 0, From: -1, To: first, FromSite: -1, ToSite: -2})
+	record(TraceEntry{Step: 0, From: -1, To: first, FromSite: -1, ToSite: -2})
 	gs[first].word = 1
 	simActive = true
+}
+
+// record appends to the preallocated trace; when it is full no further switches
+// are recorded and the run is marked as overrun (inconclusive).
+//
+//go:norace
+func record(t TraceEntry) {
+	if len(trace) < cap(trace) {
+		trace = trace[:len(trace)+1]
+		trace[len(trace)-1] = t
+		return
+	}
+	overrun = true
 }
 
 //go:norace
@@ -337,7 +355,7 @@ func Exit(i int) {
 	if next < 0 {
 		return // everyone is done
 	}
-	trace = append(trace, TraceEntry{Step: step, From: i, To: next, FromSite: -1, ToSite: gs[next].site})
+	record(TraceEntry{Step: step, From: i, To: next, FromSite: -1, ToSite: gs[next].site})
 	quantLeft = pol.Quantum
 	cur = next
 	gs[next].word = 1
@@ -348,9 +366,7 @@ func Exit(i int) {
 func switchTo(next int, site int) {
 	prev := cur
 	gs[prev].site = site
-	if len(trace) < 1<<20 {
-		trace = append(trace, TraceEntry{Step: step, From: prev, To: next, FromSite: site, ToSite: gs[next].site})
-	}
+	record(TraceEntry{Step: step, From: prev, To: next, FromSite: site, ToSite: gs[next].site})
 	cur = next
 	gs[next].word = 1
 	futexWake(&gs[next].word)
